@@ -497,6 +497,11 @@ func runParent(env Env, ch *Check, only string) int {
 					os.RemoveAll(d)
 					os.MkdirAll(d, 0o755)
 					c := spawnWorker(env, ch, self, 0, 1, culprit, p.Shared, d, "")
+					if hang && os.Getenv("XV_TOOL_WATCHDOG") == "" {
+						// the confirmation runs give the command four times as long: a machine that was merely busy when
+						// the first limit expired does not confirm, a command that does not return still does
+						c.Env = append(c.Env, "XV_TOOL_WATCHDOG=240")
+					}
 					c.Run()
 					isoDone <- !c.ProcessState.Success()
 					os.RemoveAll(d)
